@@ -130,6 +130,24 @@ def verify_unit(name, twin=True, rlimit=None, seed=None, keep=True):
         f.write(gen.text())
     res.gen_path = path
     res.assumptions = scan_assumptions(gen)
+    twin_box = {}
+    twin_thread = None
+    if twin:
+        import threading
+
+        def _twin():
+            try:
+                u2 = Unit(name)
+                g2 = u2.assemble(twin=True)
+                p2 = os.path.join(BUILD, "vx_%s_twin.rs" % name)
+                with open(p2, "w") as f:
+                    f.write(g2.text())
+                twin_box["run"] = run_verus(p2, multiple_errors=0)
+                twin_box["twins"] = list(u2.twins)
+            except (SpliceError, LostAnchor, ScanError) as e:
+                twin_box["error"] = str(e)
+        twin_thread = threading.Thread(target=_twin)
+        twin_thread.start()
     extra = []
     if rlimit:
         extra += ["--rlimit", str(rlimit)]
@@ -179,16 +197,16 @@ def verify_unit(name, twin=True, rlimit=None, seed=None, keep=True):
             res.status = "undecided"
         else:
             res.status = "failed"
-    # reachability twin
+    # reachability twin (ran concurrently)
+    if twin_thread is not None:
+        twin_thread.join()
     if twin and res.status == "verified":
-        try:
-            u2 = Unit(name)
-            g2 = u2.assemble(twin=True)
-            p2 = os.path.join(BUILD, "vx_%s_twin.rs" % name)
-            with open(p2, "w") as f:
-                f.write(g2.text())
-            cmd2, js2, diags2, rc2, wall2 = run_verus(p2, multiple_errors=0)
-            res.wall_s += wall2
+        if "error" in twin_box:
+            res.twin_ok = False
+            res.twin_note = "twin assembly failed: %s" % twin_box["error"]
+        else:
+            cmd2, js2, diags2, rc2, wall2 = twin_box["run"]
+            twins = twin_box["twins"]
             if js2 is None:
                 res.twin_ok = False
                 res.twin_note = "twin run produced no result"
@@ -200,14 +218,11 @@ def verify_unit(name, twin=True, rlimit=None, seed=None, keep=True):
                         if fn.endswith("__twin"):
                             status[fn] = fb.get("success")
                 # a twin that succeeds proved `false`: vacuous precondition or inconsistent assumption
-                missing = [t for t in u2.twins if status.get(t) is not False]
+                missing = [t for t in twins if status.get(t) is not False]
                 res.twin_ok = len(missing) == 0
-                res.twin_note = ("%d twins, none can prove `false`" % len(u2.twins)) if res.twin_ok else \
+                res.twin_note = ("%d twins, none can prove `false`" % len(twins)) if res.twin_ok else \
                     "VACUOUS or not run: twins not refuted: %s" % ", ".join(missing)
-                res.twins = list(u2.twins)
-        except (SpliceError, LostAnchor, ScanError) as e:
-            res.twin_ok = False
-            res.twin_note = "twin assembly failed: %s" % e
+                res.twins = twins
     return res
 
 
